@@ -1,4 +1,5 @@
 """pypyr step gets vars from config and writes these into context."""
+import copy
 import logging
 
 from pypyr.config import config
@@ -17,7 +18,9 @@ def run_step(context):
     logger.debug("started")
 
     if config.vars:
-        context.update(config.vars)
+        # copy so that steps mutating these values in place can't change the
+        # process-wide config for every other pipeline.
+        context.update(copy.deepcopy(config.vars))
         logger.debug(
             f"written {len(config.vars)} variables from config.vars into "
             "context.")
